@@ -698,6 +698,10 @@ def dde_models():
                 model([pop, tg], {"p1": dict(ops=["op"]), "t1": dict(ops=["tg"])}, [edge("p1/op/r", "t1/tg/u", 1.5, 1.0), edge("t1/tg/v", "p1/op/r_in", -0.5)])))
     out.append(("H12-edge-delay-integer-one", dict(edges=True, int_delay_one=True),
                 model([pop, tg], {"p1": dict(ops=["op"]), "t1": dict(ops=["tg"])}, [edge("p1/op/r", "t1/tg/u", 1.5, 1), edge("t1/tg/v", "p1/op/r_in", -0.5)])))
+    # two delays on one variable, both delayed terms NON-linear in the delayed state (history Jacobians depend on the delayed values)
+    d17 = dict(name="d17", eqs=[["x", "de", ["+", ["+", ["neg", V("x")], ["*", N(0.5), ["pow", ["past", "x", 0.3], 2]]],
+                                                 ["*", N(0.25), ["pow", ["past", "x", 0.8], 3]]]]], vars={"x": ["output", 0.6]})
+    out.append(("H17-two-delays-nonlinear-in-the-delayed-state", dict(delays=[0.3, 0.8]), model([d17], {"p": dict(ops=["d17"])})))
     # negative coefficient in front of a delayed term inside a sum (printing of ` - 2.0*past(...)`)
     d7 = dict(name="d7", eqs=[["x", "de", ["-", V("z"), V("x")]],
                               ["z", "de", ["-", V("x"), ["*", N(2.0), ["past", "z", 0.5]]]]],
@@ -722,6 +726,11 @@ def c12_models():
         o = nl("nlo", fn)
         out.append((f"J4-{fn}", dict(fn=fn), model([o], {"p1": dict(ops=["nlo"]), "p2": dict(ops=["nlo"], over={"nlo/tau": 1.0})},
                                                     [edge("p1/nlo/x", "p2/nlo/u", 1.5), edge("p2/nlo/x", "p1/nlo/u", -0.7)])))
+    for fn in ("sigmoid", "tanh", "exp"):
+        bare = dict(name="bs", eqs=[["x", "de", ["+", ["neg", V("x")], ["*", V("k"), ["call", fn, V("z")]]]],
+                                    ["z", "de", ["+", ["neg", V("z")], ["*", ["call", fn, V("x")], ["call", "tanh", V("z")]]]]],
+                    vars={"x": ["output", 0.3], "z": ["state", -0.2], "k": ["const", 1.5]})
+        out.append((f"J9-{fn}-of-a-bare-state-variable", dict(fn=fn), model([bare], {"p": dict(ops=["bs"])})))
     prod = dict(name="pr", eqs=[["x", "de", ["-", ["*", V("x"), V("z")], ["/", V("x"), ["+", N(2.0), ["pow", V("z"), 2]]]]],
                                 ["z", "de", ["+", ["neg", V("z")], ["*", V("a"), ["pow", V("x"), 2]]]]],
                 vars={"x": ["output", 0.3], "z": ["state", -0.2], "a": ["const", 0.7]})
